@@ -308,7 +308,8 @@ def parse_q(s):
 def parse_sel(txt):
     """model rendering of a selection -> ('E', type) | (name, red, crit)"""
     if txt.startswith('E:'):
-        return ('E', txt[2:].split(':')[0])
+        body, crit = txt[2:].rsplit('|', 1)
+        return ('E', body.split(':')[0], float(parse_q(crit)))
     name, red, crit = txt.split('|')
     return (name, float(parse_q(red)), float(parse_q(crit)))
 
@@ -430,7 +431,7 @@ def call_b(rec, roadm_lib):
 
 def term_b(recs, views, roadm_lib, maxl):
     """one term per network: shared library / band / Raman limit, one call per amplifier node"""
-    return (f"run_nodes {listlit([amq_lit(v) for v in views])} {qlit(maxl)} "
+    return (f"run_nodes {listlit([amq_lit(v) for v in views])} {qlit(float(maxl) * 1e-3)} "
             f"{listlit([call_b(r, roadm_lib) for r in recs])}")
 
 
@@ -460,9 +461,9 @@ def run(ctx):
     if ctx.replay:
         cases = [json.load(open(ctx.replay))['case']]
     else:
-        cases += [gen_case_a(rng) for _ in range(ctx.scale(260, 4000))]
+        cases += [gen_case_a(rng) for _ in range(ctx.scale(260, 3000))]
         from . import c09
-        cases += [dict(c09.gen_case(rng, for_c10=True), kind='B') for _ in range(ctx.scale(110, 1500))]
+        cases += [dict(c09.gen_case(rng, for_c10=True), kind='B') for _ in range(ctx.scale(110, 1000))]
     terms, meta = [], []
     for c in cases:
         if c.get('kind', 'A') == 'A':
@@ -511,7 +512,7 @@ def run(ctx):
             for r1, part in zip(rec, parts):
                 case = r1['_case']
                 mod = parse_sel(part)
-                if mod[0] != 'E' and mod[2] < TOL:
+                if mod[2] < TOL:
                     ctx.count('A_not_judged_threshold_tie')
                     continue
                 for key, desc in oracle_select(r1):
@@ -556,11 +557,11 @@ def judge_b(ctx, rec, line, views, roadm_lib):
             ctx.corr_break('corr:Select.auto_select', f"{rec['uid']}: select_edfa was not called", case)
         else:
             ctx.count('B_no_permitted_model')
-            if not sel.startswith('E:ConfigurationError'):
+            if not sel.startswith('E:ConfigurationError') and sel != 'imposed':
                 ctx.corr_break('corr:Select.auto_select', f"{rec['uid']}: empty restrictions", case, model=sel)
         return
     mod = parse_sel(sel)
-    if mod[0] != 'E' and mod[2] < TOL:
+    if mod[2] < TOL:
         ctx.count('B_not_judged_threshold_tie')
         return
     if (ra_s == 'T') != rec['ra']:
